@@ -15,6 +15,11 @@
 //   resetbig n => ok <shardLen>      production constants, |D| = n, D[j] = pat(j) (sparse-free synthetic file)
 //   rdbig off size => ok|err <eq> <interval>...
 //   decbig => ok|err <eq>
+//   resetmid L S buf n dseed => ok <shardLen>     |D| = n above 10 MiB, D[j] = pat(j + dseed*7919): shards LARGER than the rebuilder's 1 MiB chunk;
+//                                                 the 14 original shards are kept by the harness
+//   rebuildmid <lostmask> => ok|err <len>:<eqbits> ...   per lost shard (ascending): length of the regenerated file and, for every
+//                                                 rebuild chunk (ErasureCodingSmallBlockSize bytes) of the ORIGINAL shard, 1 = that
+//                                                 whole chunk of the regenerated file is byte-identical to the original, 0 = not
 package main
 
 import (
@@ -484,6 +489,125 @@ func (b *bigCase) dec() []string {
 	})
 }
 
+// ---------------------------------------------------------------- multi-chunk rebuild (shards above the rebuilder's buffer)
+
+type midCase struct {
+	dir, base string
+	L, S      int64
+	buf       int
+	shards    [][]byte // the originals, as written by the real encoder
+	ok        bool
+}
+
+func (m *midCase) close() {
+	if m.dir != "" {
+		os.RemoveAll(m.dir)
+	}
+}
+
+func newMid(L, S int64, buf int, n int64, dseed uint64) (*midCase, []string) {
+	dir, err := os.MkdirTemp("", "c06m")
+	if err != nil {
+		panic(err)
+	}
+	m := &midCase{dir: dir, base: filepath.Join(dir, "1"), L: L, S: S, buf: buf}
+	outs := hx.Guard(func() []string {
+		if n > 1<<28 || n < 0 {
+			return []string{"toobig"}
+		}
+		D := make([]byte, n)
+		var wg sync.WaitGroup
+		const parts = 8
+		for p := int64(0); p < parts; p++ {
+			lo, hi := n*p/parts, n*(p+1)/parts
+			wg.Add(1)
+			go func(lo, hi int64) { defer wg.Done(); fillPat(D[lo:hi], lo+int64(dseed%1000003)*7919) }(lo, hi)
+		}
+		wg.Wait()
+		if err := os.WriteFile(m.base+".dat", D, 0644); err != nil {
+			panic(err)
+		}
+		if err := ec.VerifGenerateEcFiles(m.base, buf, L, S); err != nil {
+			return []string{"err"}
+		}
+		os.Remove(m.base + ".dat")
+		for i := 0; i < ec.TotalShardsCount; i++ {
+			b, err := os.ReadFile(shardPath(m.base, i))
+			if err != nil {
+				return []string{"err"}
+			}
+			m.shards = append(m.shards, b)
+		}
+		m.ok = true
+		return []string{"ok", hx.I(int64(len(m.shards[0])))}
+	})
+	return m, outs
+}
+
+// chunkEq: one flag per rebuild chunk of the original: is that whole chunk of `got` identical?
+func chunkEq(orig, got []byte) string {
+	C := int(ec.ErasureCodingSmallBlockSize)
+	var sb strings.Builder
+	for lo := 0; lo < len(orig); lo += C {
+		hi := lo + C
+		if hi > len(orig) {
+			hi = len(orig)
+		}
+		if hi <= len(got) && bytes.Equal(orig[lo:hi], got[lo:hi]) {
+			sb.WriteByte('1')
+		} else {
+			sb.WriteByte('0')
+		}
+	}
+	if sb.Len() == 0 {
+		return "-"
+	}
+	return sb.String()
+}
+
+func (m *midCase) rebuild(mask uint32) []string {
+	outs := hx.Guard(func() []string {
+		for i := 0; i < ec.TotalShardsCount; i++ {
+			if mask&(1<<uint(i)) != 0 {
+				os.Remove(shardPath(m.base, i))
+			}
+		}
+		if _, err := ec.VerifGenerateMissingEcFiles(m.base, m.buf, m.L, m.S); err != nil {
+			return []string{"err"}
+		}
+		o := []string{"ok"}
+		for i := 0; i < ec.TotalShardsCount; i++ {
+			if mask&(1<<uint(i)) != 0 {
+				b, e := os.ReadFile(shardPath(m.base, i))
+				if e != nil {
+					return []string{"err"}
+				}
+				o = append(o, fmt.Sprintf("%d:%s", len(b), chunkEq(m.shards[i], b)))
+			}
+		}
+		return o
+	})
+	for i := 0; i < ec.TotalShardsCount; i++ { // restore the case
+		if mask&(1<<uint(i)) != 0 {
+			os.WriteFile(shardPath(m.base, i), m.shards[i], 0644)
+		}
+	}
+	return outs
+}
+
+func midLines(L, S int64, buf int, n int64, dseed uint64, masks []uint32) []line {
+	m, outs := newMid(L, S, buf, n, dseed)
+	defer m.close()
+	ls := []line{{"resetmid", []string{hx.I(L), hx.I(S), hx.I(int64(buf)), hx.I(n), hx.U(dseed)}, outs}}
+	if !m.ok {
+		return ls
+	}
+	for _, mk := range masks {
+		ls = append(ls, line{"rebuildmid", []string{hx.U(uint64(mk))}, m.rebuild(mk)})
+	}
+	return ls
+}
+
 // ---------------------------------------------------------------- generation
 
 type cfg struct {
@@ -745,6 +869,53 @@ func main() {
 		emit(l)
 	}
 
+	// shards larger than the rebuilder's chunk (ErasureCodingSmallBlockSize): a .dat above 10 MiB, small blocks
+	// of the production size so that the shard length stays a multiple of the chunk as in production;
+	// once at the production constants (small rows only) and with a scaled-down large block (large + small rows)
+	{
+		MiB := int64(1 << 20)
+		Sp := int64(ec.ErasureCodingSmallBlockSize)
+		type mj struct {
+			L, S  int64
+			buf   int
+			n     int64
+			ds    uint64
+			masks []uint32
+			out   []line
+		}
+		rmask := func(maxLost int) uint32 {
+			var m uint32
+			for k := 1 + r.Intn(maxLost); k > 0; k-- {
+				m |= 1 << uint(r.Intn(ec.TotalShardsCount))
+			}
+			return m
+		}
+		mjs := []*mj{
+			{L: int64(ec.ErasureCodingLargeBlockSize), S: Sp, buf: 256 * 1024, n: 10*MiB + 1 + int64(r.Intn(int(9*MiB))), ds: r.U64() % 1000000,
+				masks: []uint32{1 << uint(r.Intn(ec.DataShardsCount)), 1 << uint(ec.DataShardsCount+r.Intn(ec.ParityShardsCount)), rmask(4)}},
+		}
+		if a.Thorough() || a.Budget > 1 {
+			mjs = append(mjs,
+				&mj{L: 2 * Sp, S: Sp, buf: 256 * 1024, n: 20*MiB + 1 + int64(r.Intn(int(15*MiB))), ds: r.U64() % 1000000,
+					masks: []uint32{rmask(1), rmask(2), rmask(3), rmask(4), 0xf, 0x3c00, 0x1f}},
+				&mj{L: int64(ec.ErasureCodingLargeBlockSize), S: Sp, buf: 1 << 20, n: 30*MiB + int64(r.Intn(3)) - 1, ds: r.U64() % 1000000,
+					masks: []uint32{rmask(2), rmask(4), rmask(4)}})
+		}
+		for _, j := range mjs {
+			wg.Add(1)
+			sem <- struct{}{}
+			go func(j *mj) {
+				defer wg.Done()
+				defer func() { <-sem }()
+				j.out = midLines(j.L, j.S, j.buf, j.n, j.ds, j.masks)
+			}(j)
+		}
+		wg.Wait()
+		for _, j := range mjs {
+			emit(j.out)
+		}
+	}
+
 	// one real-size case exactly on a large-row boundary (thorough tier, disk permitting)
 	if a.Thorough() && a.Seed%3 == 1 && os.Getenv("C06_NOBIG") == "" {
 		emit(bigLines(10*int64(ec.ErasureCodingLargeBlockSize), [][2]int64{{0, 64}, {8, 4096}, {int64(ec.ErasureCodingLargeBlockSize) - 8, 64}, {5 << 30, 1 << 20}, {10*int64(ec.ErasureCodingLargeBlockSize) - 64, 64}}, true))
@@ -776,7 +947,11 @@ func atoi(s string) int64 {
 func replay(ops [][]string, emit func([]line)) {
 	var cur *ecCase
 	var big *bigCase
+	var mid *midCase
 	defer func() {
+		if mid != nil {
+			mid.close()
+		}
 		if cur != nil {
 			cur.close()
 		}
@@ -826,6 +1001,17 @@ func replay(ops [][]string, emit func([]line)) {
 			if outs[0] != "ok" {
 				big.close()
 				big = nil
+			}
+		case "resetmid":
+			if mid != nil {
+				mid.close()
+			}
+			var outs []string
+			mid, outs = newMid(atoi(arg(o, 1)), atoi(arg(o, 2)), int(atoi(arg(o, 3))), atoi(arg(o, 4)), uint64(atoi(arg(o, 5))))
+			emit([]line{{"resetmid", o[1:], outs}})
+		case "rebuildmid":
+			if mid != nil && mid.ok {
+				emit([]line{{"rebuildmid", o[1:], mid.rebuild(uint32(atoi(arg(o, 1))))}})
 			}
 		case "rdbig":
 			if big != nil {
